@@ -621,7 +621,14 @@ class Explorer(object):
                     if is_const(c):
                         st.env[ins.res] = self.ev(ins.ops[1] if c[1] else ins.ops[2], st)
                     else:
-                        st.env[ins.res] = ('sel', c, self.ev(ins.ops[1], st), self.ev(ins.ops[2], st))
+                        # a select is a branch without a block: fork on it, so that 'x = c ? a : b'
+                        # and 'if (c) x = a; else x = b;' are analysed alike
+                        s2 = st.fork()
+                        self._assume(st, c, True, ins)
+                        self._assume(s2, c, False, ins)
+                        st.env[ins.res] = self.ev(ins.ops[1], st)
+                        s2.env[ins.res] = self.ev(ins.ops[2], s2)
+                        work.append((s2, lbl, i + 1))
                 elif op == 'alloca':
                     st.env[ins.res] = ('alloca', fn.var_names.get(ins.res, ins.res) if False else ins.res)
                 elif op == 'br':
